@@ -427,11 +427,11 @@ package argmapper
 //@ ghost combLen(f *Func, opts []Arg) int = len(f.callOpts) + len(opts)
 //@ func (*Func).argBuilder
 //@   split-paths
-//@   ensures  [nil-option-is-an-error] forall(i, int, imp(0 <= i && i < combLen(f, old(opts)) && comb(f, old(opts), i) == nil, result0 == nil && result1 != nil))
+//@   ensures  [nil-option-is-an-error] forall(i, int, imp(0 <= i && i < old(combLen(f, opts)) && old(comb(f, opts, i)) == nil, result0 == nil && result1 != nil))
 //@   ensures  [builder] imp(result0 != nil, wfB(result0) && fresh(result0) && !result0.redefining)
-//@   ensures  [defaults-then-call-options-last-wins] imp(result0 != nil, forall(i, int, k, string, imp(0 <= i && i < combLen(f, old(opts)) && setsNamed(comb(f, old(opts), i), k) && forall(j, int, imp(i < j && j < combLen(f, old(opts)), !setsNamed(comb(f, old(opts), j), k))), has(result0.named, k) && result0.named[k] == namedVal(comb(f, old(opts), i)))))
-//@   ensures  [only-supplied-names] imp(result0 != nil, forall(k, string, imp(forall(j, int, imp(0 <= j && j < combLen(f, old(opts)), !setsNamed(comb(f, old(opts), j), k))), !has(result0.named, k))))
-//@   ensures  [defaults-then-call-options-last-wins-subtypes] imp(result0 != nil, forall(i, int, k, string, s, string, imp(0 <= i && i < combLen(f, old(opts)) && setsNamedSub(comb(f, old(opts), i), k, s) && forall(j, int, imp(i < j && j < combLen(f, old(opts)), !setsNamedSub(comb(f, old(opts), j), k, s))), has(result0.namedSub[k], s) && result0.namedSub[k][s] == namedSubVal(comb(f, old(opts), i)))))
+//@   ensures  [defaults-then-call-options-last-wins] imp(result0 != nil, forall(i, int, k, string, imp(0 <= i && i < old(combLen(f, opts)) && setsNamed(old(comb(f, opts, i)), k) && forall(j, int, imp(i < j && j < old(combLen(f, opts)), !setsNamed(old(comb(f, opts, j)), k))), has(result0.named, k) && result0.named[k] == namedVal(old(comb(f, opts, i))))))
+//@   ensures  [only-supplied-names] imp(result0 != nil, forall(k, string, imp(forall(j, int, imp(0 <= j && j < old(combLen(f, opts)), !setsNamed(old(comb(f, opts, j)), k))), !has(result0.named, k))))
+//@   ensures  [defaults-then-call-options-last-wins-subtypes] imp(result0 != nil, forall(i, int, k, string, s, string, imp(0 <= i && i < old(combLen(f, opts)) && setsNamedSub(old(comb(f, opts, i)), k, s) && forall(j, int, imp(i < j && j < old(combLen(f, opts)), !setsNamedSub(old(comb(f, opts, j)), k, s))), has(result0.namedSub[k], s) && result0.namedSub[k][s] == namedSubVal(old(comb(f, opts, i))))))
 //@   after "copy(optsCopy[len(f.callOpts):], opts)" assert [copied-in-order] len(optsCopy) == combLen(f, opts) && forall(i, int, imp(0 <= i && i < len(optsCopy), optsCopy[i] == comb(f, opts, i)))
 //@   assigns  Func, argBuilder, NamedM, NamedSubM, TypedM, TypedSubM, []*Func, []ConverterGenFunc, ValueSet, Value, valueInternal, []*Value, map[string]*Value, map[reflect.Type]*Value, map[string]string, []string, []interface{}, reflect.StructField, []reflect.StructField, []Arg, rvstore, rvfresh
 //@   modifies nothing
